@@ -89,3 +89,6 @@ def delayq(run, P):
 def hashed(run, P):
     from rules import r_session
     r_session.run_hashed(run, P)
+def writecap(run, P):
+    from rules import r_writecap
+    r_writecap.run(run, P)
